@@ -33,9 +33,15 @@ path "auth/token/create-orphan" { capabilities = ["update", "sudo"] }`,
 		s.Must(s.ReqNS(ns1, s.Root, logical.UpdateOperation, "sys/policies/acl/"+name, map[string]interface{}{"policy": hcl}))
 	}
 	s.WritePolicy("nscreator", `path "ns1/auth/token/create" { capabilities = ["update"] }
+path "ns1/auth/token/create/*" { capabilities = ["update"] }
 path "ns1/auth/token/create-orphan" { capabilities = ["update"] }`)
 	s.WritePolicy("nssudocreator", `path "ns1/auth/token/create" { capabilities = ["update", "sudo"] }
+path "ns1/auth/token/create/*" { capabilities = ["update", "sudo"] }
 path "ns1/auth/token/create-orphan" { capabilities = ["update", "sudo"] }`)
+	// token roles of ns1 (used through ns1/auth/token/create/<role> by callers of the root namespace)
+	s.Must(s.ReqNS(ns1, s.Root, logical.UpdateOperation, "auth/token/roles/nr-empty", map[string]interface{}{}))
+	s.Must(s.ReqNS(ns1, s.Root, logical.UpdateOperation, "auth/token/roles/nr-allow-p1", map[string]interface{}{"allowed_policies": "p1"}))
+	s.Must(s.ReqNS(ns1, s.Root, logical.UpdateOperation, "auth/token/roles/nr-orphan", map[string]interface{}{"orphan": true}))
 
 	mkIn := func(inNS bool, data map[string]interface{}) func() string {
 		return func() string {
@@ -66,8 +72,14 @@ path "ns1/auth/token/create-orphan" { capabilities = ["update", "sudo"] }`)
 		{c07Parent{Name: "root-ns:root", Policies: []string{"root"}, Root: true, Sudo: true, NeverExp: true}, false, func() string { return s.Root }},
 	}
 	for _, par := range parents {
-		for _, endpoint := range []string{"create", "create-orphan"} {
+		for _, endpoint := range []string{"create", "create-orphan", "create/nr-empty", "create/nr-allow-p1", "create/nr-orphan"} {
+			if par.inNS && len(endpoint) > len("create-orphan") {
+				continue // roles inside one namespace are part R's business
+			}
 			for pi, p := range paramsA {
+				if len(endpoint) > len("create-orphan") && pi%4 != 1 && !vout.Thorough() {
+					continue
+				}
 				if endpoint == "create-orphan" && pi%4 != 0 && !vout.Thorough() {
 					continue
 				}
